@@ -356,6 +356,8 @@ impl<T> Future for ReceiveFuture<'_, T> {
                             this.sig
                                 .set_ptr(KanalPtr::new_unchecked(this.data.as_mut_ptr()));
                         }
+                        #[cfg(kanal_verif)]
+                        crate::verif::owner_slot(this.data.as_ptr(), 2);
                         this.sig.register_waker(cx.waker());
                         // no active waiter so push to the queue
                         internal.push_recv(this.sig.get_terminator());
